@@ -89,11 +89,42 @@ def run_catalogue(pid, repo=None, jobs=16):
         return list(ex.map(lambda v: _run_variant(pid, v, repo), vs))
 
 
+def _run_seeded(pid, sdir, repo):
+    """One seeded change (seeded/<pid>-<k>/patch.diff, written by an independent agent and confirmed to break
+    the property at import): applied to a scratch copy, the check must report a violation."""
+    name = os.path.basename(sdir)
+    d = tempfile.mkdtemp(prefix="pcsd_")
+    try:
+        shutil.copytree(os.path.join(repo, "phyclone"), os.path.join(d, "phyclone"), ignore=shutil.ignore_patterns("__pycache__"))
+        a = subprocess.run(["patch", "-p1", "-s", "--no-backup-if-mismatch", "-i", os.path.join(sdir, "patch.diff")], cwd=d, capture_output=True, text=True)
+        if a.returncode != 0:
+            return {"name": "seeded:" + name, "kind": "break", "status": "stale", "detail": "patch no longer applies"}
+        env = dict(os.environ, PCSTATIC_EVIDENCE_DIR=os.path.join(d, "ev"))
+        p = subprocess.run([sys.executable, "-B", "-m", "pcstatic.main", pid, "--repo", d, "--tier", "quick", "--quiet"], cwd=VERIF, env=env, capture_output=True, text=True, timeout=300)
+        out = p.stdout + p.stderr
+        rules = sorted({l.split("rule=")[1].split()[0] for l in out.splitlines() if "  rule=" in l})
+        res = {"name": "seeded:" + name, "kind": "break", "exit": p.returncode, "rules_fired": rules}
+        res["status"] = "ok" if p.returncode == 1 else ("analysis-error" if p.returncode == 2 else "MISSED")
+        if p.returncode == 2:
+            res["detail"] = [l for l in out.splitlines() if "ANALYSIS-ERROR" in l][:1]
+        return res
+    finally:
+        shutil.rmtree(d, ignore_errors=True)
+
+
+def run_seeded(pid, repo=None, jobs=8):
+    repo = repo or model.REPO
+    root = os.path.join(VERIF, "seeded")
+    dirs = sorted(os.path.join(root, x) for x in (os.listdir(root) if os.path.isdir(root) else []) if x.startswith(pid + "-") and os.path.exists(os.path.join(root, x, "patch.diff")))
+    with ThreadPoolExecutor(max_workers=jobs) as ex:
+        return list(ex.map(lambda sd: _run_seeded(pid, sd, repo), dirs))
+
+
 def run_for_property(ctx, pid):
     """Thorough tier: run the catalogue and record it in the evidence.  A rule that no longer fires on
     its breaking variant, or fires on a benign one, makes the run an ANALYSIS-ERROR (the checker is
     broken), never a VIOLATION of the property."""
-    res = run_catalogue(pid)
+    res = run_catalogue(pid) + run_seeded(pid)
     ctx.selftest = {
         "variants": len(res),
         "breaking_caught": sum(1 for r in res if r.get("kind") == "break" and r["status"] in ("ok", "ok-other-rule")),
@@ -105,7 +136,7 @@ def run_for_property(ctx, pid):
     }
     if not ctx.quiet:
         print("  self-test: %(breaking_caught)d/%(breaking_total)d breaking variants caught, %(benign_silent)d/%(benign_total)d benign variants silent, %(stale)d stale" % ctx.selftest)
-    bad = [r for r in res if r["status"] in ("MISSED", "FALSE-ALARM", "broken-variant")]
+    bad = [r for r in res if r["status"] in ("MISSED", "FALSE-ALARM", "broken-variant") or (r["name"].startswith("seeded:") and r["status"] == "analysis-error")]
     documented = {v["name"] for v in variants_for(pid) if v.get("documented_limit")}
     bad = [r for r in bad if r["name"] not in documented]
     if bad:
@@ -118,7 +149,7 @@ def main(argv):
     pids = [a.upper() for a in argv if not a.startswith("-")]
     rc = 0
     for pid in pids:
-        res = run_catalogue(pid)
+        res = run_catalogue(pid) + (run_seeded(pid) if "--seeded" in argv else [])
         for r in res:
             print("%-4s %-7s %-44s %-16s %s" % (pid, r.get("kind", ""), r["name"], r["status"], r.get("rules_fired", r.get("detail", ""))))
             if r["status"] in ("MISSED", "FALSE-ALARM", "broken-variant"):
